@@ -151,6 +151,7 @@ func ruleFramingReader(p *Program, r *Result) {
 			"the body size is not binary.BigEndian.Uint32(header[8:]) of the header just read")
 		// --- oversize test dominates allocation and second read, compares without lossy conversion
 		var guard *ssa.If
+		guardErrIdx := 0
 		for _, b := range R.Blocks {
 			iff, ok := b.Instrs[len(b.Instrs)-1].(*ssa.If)
 			if !ok {
@@ -181,8 +182,14 @@ func ruleFramingReader(p *Program, r *Result) {
 			if stripAllConv(x) != lenVal {
 				continue
 			}
-			// error edge is the true edge when "len > Max" / "len >= Max+1"
-			if !((op == token.GTR && cst == maxBody) || (op == token.GEQ && cst == maxBody+1)) {
+			// error edge is the true edge when "len > Max" / "len >= Max+1", the false edge when the test is
+			// written the other way round ("len <= Max" / "len < Max+1")
+			switch {
+			case (op == token.GTR && cst == maxBody) || (op == token.GEQ && cst == maxBody+1):
+				guardErrIdx = 0
+			case (op == token.LEQ && cst == maxBody) || (op == token.LSS && cst == maxBody+1):
+				guardErrIdx = 1
+			default:
 				continue
 			}
 			// comparison must not be after a sign-changing/narrowing conversion
@@ -195,9 +202,10 @@ func ruleFramingReader(p *Program, r *Result) {
 		if guard == nil {
 			r.bad("R-FRAMING", key+":oversize-guard", p.Pos(ms.Pos()), "no test 'length > MaxBodyLength' on the announced length (compared at full width) guards the body allocation")
 		} else {
-			okDom := guard.Block().Succs[1].Dominates(ms.Block()) || guard.Block().Succs[1] == ms.Block()
+			okSucc := guard.Block().Succs[1-guardErrIdx]
+			okDom := (okSucc.Dominates(ms.Block()) || okSucc == ms.Block()) && len(okSucc.Preds) == 1
 			// error edge: returns without reading again
-			errReach := blockReach(guard.Block().Succs[0], nil)
+			errReach := blockReach(guard.Block().Succs[guardErrIdx], nil)
 			again := errReach[bodyRead.Block()] || errReach[hdrRead.Block()] || errReach[ms.Block()]
 			r.cond(okDom && !again, "R-FRAMING", key+":oversize-guard", p.Pos(guard.Pos()),
 				"the oversize test precedes the body allocation and the second read; its error edge returns at once without allocating or reading",
